@@ -114,8 +114,8 @@ type Net struct {
 	n        int
 	nodes    map[int]*gnode // by keyper index
 	order    []int
-	cfgIdx   int64  // keyper config index of the run's eon (the "eon" field of the p2p messages)
-	actBlock int64  // activation block number of the run's eon
+	cfgIdx   int64 // keyper config index of the run's eon (the "eon" field of the p2p messages)
+	actBlock int64 // activation block number of the run's eon
 	ref      *puredkg.Result
 	refIdx   int
 	ids      []string          // identity names of the current schedule
